@@ -156,4 +156,26 @@ inductive CombineOut where
   | rebuilt (starts ends : List Int)
   deriving DecidableEq, Repr
 
+/-! ### Reading-frame cleaning (kernels `CDSInterval_exon_iter`, `CDSInterval_frame_iter`, `CDSInterval_clean_frames`) -/
+
+/-- A parent-less chromosome-level `CDSInterval` as the frame-cleaning loop sees it: `self.chromosome_location`
+    (a CompoundInterval, also with one block: view `CI`) and `self.frames`; `self.strand` is
+    `self.chromosome_location.strand` (AbstractInterval.strand).  The translator checks on every run that the classes
+    still say so (`cdsv_view_guards`). -/
+structure CDSV where
+  chromosome_location : CI
+  frames : List CDSFrame
+  deriving DecidableEq, Repr, Inhabited
+
+/-- `itertools.zip_longest(xs, ys)` (fillvalue None): once one list is exhausted its side is `None` -/
+def zipLongest {α β : Type} : List α → List β → List (Option α × Option β)
+  | [], bs => bs.map (fun b => (none, some b))
+  | as, [] => as.map (fun a => (some a, none))
+  | a :: as, b :: bs => (some a, some b) :: zipLongest as bs
+
+/-- `sum(<ints>)` -/
+def pySum : List Int → Int
+  | [] => 0
+  | x :: xs => x + pySum xs
+
 end BioCantor.GenP
